@@ -102,7 +102,12 @@ pub fn exec(spec: &Spec, r: &mut RunResult) {
                 gp.iter().any(|p| t.contains(&p.tr))
             }))
             .unwrap_or(false);
-        let tag = if co_reach { "+co-reach" } else { "" };
+        let tag = match (co_reach, crate::ssim::nonlinear_impl_header(&spec.world.items.join("\n"))) {
+            (true, true) => "+co-reach+nonlinear",
+            (true, false) => "+co-reach",
+            (false, true) => "+nonlinear",
+            (false, false) => "",
+        };
         // 1. fresh full enumeration
         let db = mk_db(&l, &spec.db);
         let mut s0 = make_slots(&spec.slots);
